@@ -279,8 +279,15 @@ func trimValidIPv6Field(s string, gotFields int, hasEllipsis bool) (withoutField
 	}
 
 	if s[fieldLen] == '.' {
-		// Probably an IPv4 in the end.
-		return "", hasEllipsis == (gotFields < maxIPv6FieldsNum-2) && isValidIPv4String(s)
+		// Probably an IPv4 in the end.  It takes the place of exactly two
+		// fields, so without an ellipsis there must be exactly six before it.
+		if hasEllipsis {
+			ok = gotFields < maxIPv6FieldsNum-2
+		} else {
+			ok = gotFields == maxIPv6FieldsNum-2
+		}
+
+		return "", ok && isValidIPv4String(s)
 	}
 
 	return s[fieldLen:], true
